@@ -20,8 +20,8 @@ import (
 func init() {
 	register(&Rule{
 		Prop:        "C10",
-		Explanation: "Totality decided as the absence of every way the engine can stop other than by returning, over the VTA call-graph closure of the load functions, every search entry point, GetSuggestions and the recovery searches: (O-1) no reachable panic/os.Exit/log.Fatal; (O-2) every MustCompile pattern is a constant that compiles; (O-3) every string handed to the third-party fuzzy matcher as a candidate comes out of a NUL-removing function (the matcher indexes past its pattern on a NUL); (O-4) LoadDatabase hands each failing step's error to the classifier under its own operation, the classifier gives a decode failure the parse verdict before looking at anything else and recognises a missing file through the error chain, and a successful read+decode returns the database with a nil error; (O-5) every reachable loop is a range loop or a counted loop towards a loop-invariant bound and the reachable call graph is acyclic; (O-6) every implicit run-time check (index, slice bound, make size, integer divisor, single-result type assertion) is proven safe for all parameter values by overflow-aware interval analysis with parameter ranges gathered from all call sites, symbolic index<len facts from guards and loop headers matched through versioned renderings, location-class invariants (what is ever stored in a field, in the keys/values of the maps of one origin, in a local slice), library contracts (fuzzy Match.Index < len(data), sort.Slice callback indices), and six named data-structure invariants whose construction sites are re-checked on every run.",
-		NotDecided:  []string{"nil dereferences (left to the type structure: optional pointers are nil-checked at their uses by inspection, not by this check)", "panics inside third-party code other than the matcher's NUL defect (yaml decoder, cobra)", "running time beyond loop shape: no bound in seconds is derived", "memory exhaustion by a large but well-formed database file"},
+		Explanation: "Totality decided as the absence of every way the engine can stop other than by returning, over the VTA call-graph closure of the load functions, every search entry point, GetSuggestions and the recovery searches: (O-1) no reachable panic/os.Exit/log.Fatal; (O-2) every MustCompile pattern is a constant that compiles; (O-3) every string handed to the third-party fuzzy matcher as a candidate comes out of a NUL-removing function (the matcher indexes past its pattern on a NUL); (O-4) LoadDatabase hands each failing step's error to the classifier under its own operation, the classifier gives a decode failure the parse verdict before looking at anything else and recognises a missing file through the error chain, and a successful read+decode returns the database with a nil error; (O-5) every reachable loop is a range loop or a counted loop towards a loop-invariant bound and the reachable call graph is acyclic; (O-6) every implicit run-time check (index, slice bound, make size, integer divisor, single-result type assertion) is proven safe for all parameter values by overflow-aware interval analysis with parameter ranges gathered from all call sites, symbolic index<len facts from guards and loop headers matched through versioned renderings, location-class invariants (what is ever stored in a field, in the keys/values of the maps of one origin, in a local slice), library contracts (fuzzy Match.Index < len(data), sort.Slice callback indices), and six named data-structure invariants whose construction sites are re-checked on every run; (O-7) no reference the code itself treats as possibly absent — a field it compares with nil somewhere, a value merging a nil constant, a nil argument — is used as if present: every use lies behind a nil test of the value, or a must-fact for that field of that object made by a test, a predicate helper, a fresh store or an establishing call and killed by any possibly-nil store, with helpers relying on what all their call sites established.",
+		NotDecided:  []string{"nil dereferences of references that no code ever tests for nil, and of possibly absent references after they travelled through memory cells, slices or maps (O-7 decides the direct uses of fields the code tests, merged nil constants and nil arguments)", "panics inside third-party code other than the matcher's NUL defect (yaml decoder, cobra)", "running time beyond loop shape: no bound in seconds is derived", "memory exhaustion by a large but well-formed database file"},
 		Assumptions: []string{"no slice, string or map holds more than 2^48 elements", "a counter stepped by a small constant does not wrap (2^43 steps are not reachable)", "objects are not used before their constructor returns or concurrently with it", "fuzzy.Find returns Match.Index in [0, len(data)); sort.Slice calls less only with valid indices", "the index structures are rebuilt whenever the command list changes (decided under C03)"},
 		Run:         runC10,
 	})
